@@ -1954,6 +1954,10 @@ class LinearOperator(object):
         if dims[-2:] != (num_dims - 2, num_dims - 1):
             raise ValueError("At the moment, cannot permute the non-batch dimensions of LinearOperators.")
 
+        if num_dims == 2:
+            # no batch dimensions to permute
+            return self
+
         return self._permute_batch(*dims[:-2])
 
     def pivoted_cholesky(
@@ -2768,6 +2772,8 @@ class LinearOperator(object):
         self: Float[LinearOperator, "... #M #N"],
         other: Union[Float[Tensor, "... #M #N"], Float[LinearOperator, "... #M #N"], float],
     ) -> Union[Float[LinearOperator, "... M N"], Float[Tensor, "... M N"]]:
+        if isinstance(other, numbers.Number):
+            return self + (-other)
         return self + other.mul(-1)
 
     def __add__(
@@ -2983,7 +2989,8 @@ class LinearOperator(object):
         if kwargs is None:
             kwargs = {}
 
-        if not isinstance(args[0], cls):
+        if not len(args) or not isinstance(args[0], cls):
+            # (the operator may also have been passed by keyword only: no registered function supports that)
             if func not in _HANDLED_SECOND_ARG_FUNCTIONS or not all(
                 issubclass(t, (torch.Tensor, LinearOperator)) for t in types
             ):
